@@ -1099,6 +1099,11 @@ def method(I, recv, name, args, e, env):
     if isinstance(recv, SVec):
         if name == "len":
             return len(recv)
+        if name in ("windows", "chunks") and isinstance(args[0], int) and args[0] > 0:
+            n = args[0]
+            if name == "windows":
+                return Iter([SVec(recv[i:i + n]) for i in range(len(recv) - n + 1)])
+            return Iter([SVec(recv[i:i + n]) for i in range(0, len(recv), n)])
         if name == "is_empty":
             return len(recv) == 0
         if name == "first":
